@@ -63,8 +63,16 @@ type Tape struct {
 	Procs int `json:"procs,omitempty"`
 }
 
+// config is the simulator configuration of a tape for the START of a scenario
+// (the simulated sync.Pools are emptied); configKeep is the same for a later
+// phase of the same scenario, which inherits what the earlier phases left in the
+// pools.
 func (t *Tape) config() *simrt.Config {
 	simrt.ResetPools()
+	return t.configKeep()
+}
+
+func (t *Tape) configKeep() *simrt.Config {
 	return &simrt.Config{Gaps: t.Gaps, Picks: t.Picks, Edges: t.Edges, Perms: t.Perms, Clocks: t.Clocks, Pools: t.Pools,
 		StepCap: t.StepCap, ClockBase: t.ClockBase, SpinSleep: spinSleep, Procs: t.Procs}
 }
